@@ -155,6 +155,51 @@ Definition error_fields (t : ty) : list (bytes * ty) := fields_of t.
 Definition error_type (o : option ty) : ty :=
   match o with Some t => t | None => TStruct [] end.
 
+(* aliases[a.Name] = a.Type over midl.Aliases: the last declaration of a name wins *)
+Definition lookup_alias (n : bytes) (ms : list member) : option ty :=
+  fold_left (fun acc m => match m with
+                          | MAlias n' _ t => if bytes_eqb n' n then Some t else acc
+                          | _ => acc
+                          end) ms None.
+
+Fixpoint maybe_depth (t : ty) : nat :=
+  match t with TMaybe e => S (maybe_depth e) | _ => O end.
+
+(* errorType: [t] is the type to declare, [u] walks through optional markers and aliases,
+   [seen] are the aliases visited.  Every step strips one marker of the current alias body
+   or visits a new alias, so the fuel [error_type_fuel] is never exhausted. *)
+Fixpoint peel_error (fuel : nat) (ms : list member) (seen : list bytes) (t u : ty) : ty :=
+  match fuel with
+  | O => t
+  | S f =>
+    match u with
+    | TMaybe e => peel_error f ms seen e e
+    | TAlias n =>
+      if existsb (bytes_eqb n) seen then TStruct []
+      else match lookup_alias n ms with
+           | Some a => peel_error f ms (n :: seen) t a
+           | None => t
+           end
+    | _ => t
+    end
+  end.
+
+Definition alias_depths (ms : list member) : nat :=
+  fold_right (fun m acc => match m with MAlias _ _ t => S (maybe_depth t) + acc | _ => acc end)%nat O ms.
+
+Definition error_type_fuel (ms : list member) (t : ty) : nat := (S (S (maybe_depth t)) + alias_depths ms)%nat.
+
+(* for _, e := range midl.Errors { if e.Type == nil {...} else { e.Type = errorType(aliases, e.Type) } } : the tree is
+   rewritten before anything is written *)
+Definition norm_member (ms : list member) (m : member) : member :=
+  match m with
+  | MError n doc (Some t) => MError n doc (Some (peel_error (error_type_fuel ms t) ms [] t t))
+  | _ => m
+  end.
+
+Definition norm_errors (d : idl) : idl :=
+  mkIdl (i_name d) (i_doc d) (i_descr d) (map (norm_member (i_members d)) (i_members d)).
+
 (* a method parameter list that is an enum has fields whose Type is nil *)
 Definition enum_fields (t : ty) : bool :=
   match t with TEnum (_ :: _) => true | _ => false end.
@@ -557,7 +602,7 @@ Definition generate (description : bytes) : gen_res :=
   match parse (trim_right_lf description) with
   | POk d =>
     if gen_panics d then GPanic
-    else GOk (pkgname_of (i_name d)) (gen_text d)
+    else GOk (pkgname_of (i_name d)) (gen_text (norm_errors d))
   | PErr => GParseErr
   | PPanic => GPanic
   | PFuel => GPanic
